@@ -1,18 +1,23 @@
 #!/bin/bash
-# usage: tools/eval_all.sh C07 C02 ...   evaluates /tmp/seed-<id>/OUT/{1,2}
+# usage: [WAVE=2] tools/eval_all.sh C07 C02 ...   evaluates /tmp/seed$WAVE-<id>/OUT/{1,2}
+# and keeps the confirmed ones as seeded/<id>-<n> (n = 2*(wave-1)+k).
 cd "$(dirname "$0")/.."
+W=${WAVE:-}
+OFF=0
+[ -n "$W" ] && OFF=$(( (W-1)*2 ))
 for id in "$@"; do
   for k in 1 2; do
-    d=/tmp/seed-$id/OUT/$k
+    d=/tmp/seed$W-$id/OUT/$k
+    n=$((OFF+k))
     [ -f $d/patch.diff ] || continue
-    python3 tools/eval_seed.py $d --keep $id-$k > /tmp/eval-$id-$k.json 2>/tmp/eval-$id-$k.err
+    python3 tools/eval_seed.py $d --keep $id-$n > /tmp/eval-$id-$n.json 2>/tmp/eval-$id-$n.err
     python3 - <<PY
 import json
 try:
-    r=json.load(open('/tmp/eval-$id-$k.json'))
+    r=json.load(open('/tmp/eval-$id-$n.json'))
 except Exception as e:
-    print('$id-$k', 'EVAL-ERROR', open('/tmp/eval-$id-$k.err').read()[-300:]); raise SystemExit
-print('$id-$k', 'confirmed=',r.get('confirmed'), 'demo_wo=',r.get('demo_without_change'),'demo_w=',r.get('demo_with_change'),'suites=',{k:v for k,v in r.get('suites_with_change',{}).items() if not k.endswith('_tail')}, 'own=',r.get('caught_by_own_property'))
+    print('$id-$n', 'EVAL-ERROR', open('/tmp/eval-$id-$n.err').read()[-300:]); raise SystemExit
+print('$id-$n', 'confirmed=',r.get('confirmed'), 'demo_wo=',r.get('demo_without_change'),'demo_w=',r.get('demo_with_change'),'suites=',{k:v for k,v in r.get('suites_with_change',{}).items() if not k.endswith('_tail')}, 'own=',r.get('caught_by_own_property'))
 for p,f in r.get('checks_reporting',{}).items(): print('    ',p,f[0][:230])
 PY
   done
